@@ -115,6 +115,7 @@ type optSpec struct {
 	class string
 	opts  []retryOpt // empty: no retry option at all
 	place string     // where the retry options stand among the client's other options: first | middle | last | split
+	part  string     // scenario name in signatures / counters ("" = "options")
 	cands []candidate
 }
 
@@ -264,15 +265,24 @@ var reqKinds = []reqKind{
 // newOptClient builds a client the way a user would: the retry options stand at the given place among
 // the other options. The scripted method is set before anything is sent.
 func newOptClient(r *vh.Run, legacy bool, refusedAddr string, spec optSpec, method string, initialize bool) *e2eClient {
-	s := newScriptSrv(legacy, refusedAddr)
-	s.setMethod(method)
-	others := []mcp.ClientOption{mcp.WithClientLogger(kit.Quiet{}), mcp.WithClientGetSSEEnabled(false), mcp.WithHTTPReqHandler(&clientSide{s})}
 	var ro []mcp.ClientOption
 	for _, o := range spec.opts {
 		ro = append(ro, o.option())
 	}
+	e := newOptClientFrom(r, legacy, refusedAddr, spec.name, spec.place, ro, method)
+	if initialize {
+		initOptClient(r, e, spec.name)
+	}
+	return e
+}
+
+// newOptClientFrom constructs (does not initialize) a client from retry option VALUES that already exist.
+func newOptClientFrom(r *vh.Run, legacy bool, refusedAddr string, specName, place string, ro []mcp.ClientOption, method string) *e2eClient {
+	s := newScriptSrv(legacy, refusedAddr)
+	s.setMethod(method)
+	others := []mcp.ClientOption{mcp.WithClientLogger(kit.Quiet{}), mcp.WithClientGetSSEEnabled(false), mcp.WithHTTPReqHandler(&clientSide{s})}
 	var all []mcp.ClientOption
-	switch spec.place {
+	switch place {
 	case "first":
 		all = append(append(all, ro...), others...)
 	case "middle":
@@ -301,17 +311,18 @@ func newOptClient(r *vh.Run, legacy bool, refusedAddr string, spec optSpec, meth
 		c, err = mcp.NewClient(s.url(), info, all...)
 	}
 	if err != nil {
-		r.Fatal("new %s client (%s): %v", name, spec.name, err)
+		r.Fatal("new %s client (%s): %v", name, specName, err)
 	}
-	e := &e2eClient{name: name, srv: s, c: c}
-	if initialize {
-		ctx, cancel := context.WithTimeout(context.Background(), 20*time.Second)
-		defer cancel()
-		if _, err := c.Initialize(ctx, &mcp.InitializeRequest{}); err != nil {
-			r.Fatal("%s client (%s): initialize against the scripted server failed: %v", name, spec.name, err)
-		}
+	return &e2eClient{name: name, srv: s, c: c}
+}
+
+// initOptClient initializes a client whose scripted method is not "initialize".
+func initOptClient(r *vh.Run, e *e2eClient, specName string) {
+	ctx, cancel := context.WithTimeout(context.Background(), 20*time.Second)
+	defer cancel()
+	if _, err := e.c.Initialize(ctx, &mcp.InitializeRequest{}); err != nil {
+		r.Fatal("%s client (%s): initialize against the scripted server failed: %v", e.name, specName, err)
 	}
-	return e
 }
 
 // waitsFollow reports whether the recorded waits are the ones candidate c prescribes for a sequence of
@@ -350,14 +361,18 @@ type optStats struct {
 func judgeOpt(r *vh.Run, client string, spec optSpec, kind reqKind, script []string, res e2eResult, realWaits bool, st *optStats) bool {
 	r.Eval(1)
 	st.calls++
-	r.Count("options_calls_"+client, 1)
+	part := "options"
+	if spec.part != "" {
+		part = spec.part
+	}
+	r.Count(strings.SplitN(part, "/", 2)[0]+"_calls_"+client, 1)
 	got := len(res.Seen)
 	kinds := e2eKinds(script)
-	sigBase := fmt.Sprintf("C17|options|%s|%s", client, spec.class)
+	sigBase := fmt.Sprintf("C17|%s|%s|%s", part, client, spec.class)
 	wit := map[string]interface{}{"client": client, "options": spec.name, "options_position": spec.place, "request": kind.name, "script": append([]string{}, script...),
 		"attempts_seen": res.Seen, "observed_waits": waitStrings(res.Waits), "returned": errText(res.Err), "real_waits": realWaits}
 	if res.TimedOut {
-		r.Inconclusive(fmt.Sprintf("options %s %s %s script %v: the call did not return within the 20 s watchdog (attempts seen %d)", client, spec.name, kind.name, script, got))
+		r.Inconclusive(fmt.Sprintf("%s %s %s %s script %v: the call did not return within the 20 s watchdog (attempts seen %d)", part, client, spec.name, kind.name, script, got))
 		return false
 	}
 	codeAt := func(i int) string {
@@ -368,7 +383,7 @@ func judgeOpt(r *vh.Run, client string, spec optSpec, kind reqKind, script []str
 	}
 	if got > 1 {
 		st.retried++
-		r.Count("options_retried_"+kind.name, 1)
+		r.Count(strings.SplitN(part, "/", 2)[0]+"_retried_"+kind.name, 1)
 	}
 
 	// no retry option: exactly one attempt
@@ -389,7 +404,7 @@ func judgeOpt(r *vh.Run, client string, spec optSpec, kind reqKind, script []str
 			r.Violation(sigBase+"|wrong-result", fmt.Sprintf("%s client without a retry option, %s: the only attempt was answered %s but the call returned %s", client, kind.name, codeAt(1), errText(res.Err)), wit)
 			return false
 		}
-		r.Distinct(fmt.Sprintf("options|%s|no-retry-option|%s|%s", client, kind.name, e2eClass(codeAt(1))))
+		r.Distinct(fmt.Sprintf("%s|%s|no-retry-option|%s|%s", part, client, kind.name, e2eClass(codeAt(1))))
 		return true
 	}
 
@@ -493,7 +508,7 @@ func judgeOpt(r *vh.Run, client string, spec optSpec, kind reqKind, script []str
 		r.SetAdd("options_given_several_times_governing", pos)
 	}
 	shape := shapeOf(spec.cands[won].m.vc.MaxRetries, kinds)
-	r.Distinct(fmt.Sprintf("options|%s|%s@%s|%s|%s>%s", client, spec.name, spec.place, kind.name, shape, e2eClass(codeAt(got))))
+	r.Distinct(fmt.Sprintf("%s|%s|%s@%s|%s|%s>%s", part, client, spec.name, spec.place, kind.name, shape, e2eClass(codeAt(got))))
 	return true
 }
 
